@@ -221,8 +221,8 @@ func newRuleguardChecker(info *linter.CheckerInfo, ctx *linter.CheckerContext) (
 		filenames, err := filepath.Glob(strings.TrimSpace(filePattern))
 		if err != nil {
 			// The only possible returned error is ErrBadPattern, when pattern is malformed.
-			log.Printf("ruleguard init error: %+v", err)
-			continue
+			// Like a pattern that matches no file, it can't select any rules.
+			return nil, fmt.Errorf("ruleguard init error: malformed pattern '%s': %w", strings.TrimSpace(filePattern), err)
 		}
 		if len(filenames) == 0 {
 			return nil, fmt.Errorf("ruleguard init error: no file matching '%s'", strings.TrimSpace(filePattern))
